@@ -173,11 +173,10 @@ func VP_C06_dirent_joliet_len() {
 	vp.AssertUnless("KF-C06-3", n > 110, int(b[0]) == len(b), "LEN_DR byte equals the record length")
 	vp.AssertUnless("KF-C06-3", n > 110, int(b[32]) == 2*n, "LEN_FI equals the identifier length")
 	c06CheckHeader(b, de)
-	for i := 0; i < N; i++ {
-		if i < n {
-			vp.Assert(b[33+2*i] == 0, "UCS-2 high byte")
-			vp.Assert(b[33+2*i+1] == raw[i], "UCS-2 low byte")
-		}
-	}
+	j := vp.Int("probe") // any position of the name
+	vp.Assume(j >= 0)
+	vp.Assume(j < n)
+	vp.Assert(b[33+2*j] == 0, "identifier = the name in UCS-2 big endian (high byte)")
+	vp.Assert(b[34+2*j] == raw[j], "identifier = the name in UCS-2 big endian (low byte)")
 	vp.Cover("joliet record checked")
 }
